@@ -321,6 +321,8 @@ def run_execution(script, seed, crash_p=0.25, fault_p=0.1, max_inv=40, limits=No
     rounds, invs = [], []
     recorded_plans, recorded_events = [], []
     finished = False
+    clock_rng = random.Random(seed ^ 0x5EED)     # its own stream: the gaps do not disturb the plan/event/schedule draws
+    clock = None
     for k in range(max_inv):
         if plans is not None:
             if k >= len(plans):
@@ -328,12 +330,17 @@ def run_execution(script, seed, crash_p=0.25, fault_p=0.1, max_inv=40, limits=No
             plan = dict(plans[k])
         else:
             plan = gen_plan(rng, k, crash_p if k < 8 else 0.0, fault_p if k < 8 else 0.0, script)
+        if "clock0" not in plan and clock is not None:
+            # the next invocation starts a little later than the previous one ended - possibly just before, at, or after
+            # a recorded retry instant, whether or not the backend has acted on it yet
+            plan["clock0"] = clock + clock_rng.choice([0.0, 0.05, 0.4, 0.9, 1.0, 1.1, 2.5])
         recorded_plans.append({kk: v for kk, v in plan.items() if kk != "fail_exc"})
         if plan.get("fail_sync_call") is not None or plan.get("fail_any_call") is not None:
             plan["fail_exc"] = make_fail_exc(plan.get("fail_kind", "retriable"))
         start_tbl = canon_real_table(backend)
         backend.invocation_no = k
         res = run_invocation(script, backend, plan, seed=rng.randrange(1 << 30), limits=limits)
+        clock = res.get("clock", clock)
         e = end_of(res, backend)
         idmap = {}
         for ev in res["trace"]:
@@ -369,7 +376,7 @@ def run_execution(script, seed, crash_p=0.25, fault_p=0.1, max_inv=40, limits=No
             evs = []
             for kind, pos, outc in chosen:
                 r = backend.by_pos(pos)
-                if r is not None:
+                if r is not None and (kind, r.id) in en:       # a scripted event that is not enabled now is skipped
                     evs.append((kind, r.id, outc))
         else:
             evs = []
